@@ -65,8 +65,12 @@ enum Rel {
     /// `other` is an `Append` option and may be given several times: a conditional default that
     /// tests `other == x` fires when ANY of its values is x
     OtherAppend,
+    /// `other` (declared after `o`) has an environment variable holding `x`: an argument supplied by
+    /// the environment is as present as one on the command line when `o`'s conditional defaults
+    /// are decided, whatever the declaration order
+    OtherFromEnv,
 }
-const RELS: [Rel; 15] = [
+const RELS: [Rel; 16] = [
     Rel::None,
     Rel::OConflictsOther,
     Rel::OtherConflictsO,
@@ -82,6 +86,7 @@ const RELS: [Rel; 15] = [
     Rel::GlobalSub,
     Rel::ZRequiredIfOEqualsDefaultIgnoringCase,
     Rel::OtherAppend,
+    Rel::OtherFromEnv,
 ];
 
 #[derive(Clone, Debug)]
@@ -187,6 +192,7 @@ impl Cfg {
                 z.required_if_eq_any = vec![("o".into(), "D".into()), ("o".into(), "DI".into()), ("o".into(), "DM".into())];
             }
             Rel::OtherAppend => other.action = Some(Act::Append),
+            Rel::OtherFromEnv => other.env = Some("CLAPMC_X".into()),
             Rel::None => {}
         }
         c.args.push(o);
@@ -256,6 +262,7 @@ fn r3(c: &Cfg, seq: &[Tok]) -> Option<Option<(Src, Vec<String>)>> {
     let mut o_occ: Vec<Vec<String>> = vec![];
     let mut other_val: Option<&str> = None;
     let mut other_has_x = false;
+    let mut other_from_env = c.rel == Rel::OtherFromEnv;
     for t in seq {
         match t {
             Tok::OEq | Tok::OSp | Tok::OBare => {
@@ -288,6 +295,8 @@ fn r3(c: &Cfg, seq: &[Tok]) -> Option<Option<(Src, Vec<String>)>> {
                 if other_val.is_some() && c.rel != Rel::OtherAppend {
                     return None;
                 }
+                // the command line wins over the environment
+                other_from_env = false;
                 if *t == Tok::OtherX {
                     other_has_x = true;
                 }
@@ -298,6 +307,9 @@ fn r3(c: &Cfg, seq: &[Tok]) -> Option<Option<(Src, Vec<String>)>> {
             }
             _ => {}
         }
+    }
+    if other_from_env {
+        other_val = Some("x");
     }
     if !o_occ.is_empty() {
         let vals = match c.kind {
